@@ -393,6 +393,8 @@ var gameStarts = []string{
 	"8/8/8/8/8/1k6/8/K1B2b2 w - - 250 200", "8/8/8/8/8/1k6/8/K1B2b2 b - - 254 200", "r3k2r/8/8/8/8/8/8/R3K2R w KQkq - 253 300",
 	"8/8/8/8/8/1k6/8/K1B2b2 w - - 300 400", "4k3/8/8/8/8/8/4P3/R3K3 w Q - 127 100", "8/8/8/8/8/1k6/8/K1B2b2 w - - 65534 40000",
 	"4k3/8/8/8/8/8/8/R3K3 w - - 32766 20000",
+	// two bishops of ONE side on squares of one colour (needs a promotion): K+B+B v K is dead material exactly then
+	"7k/P7/8/3B4/8/8/8/K7 w - - 0 1", "k7/8/8/8/3b4/8/p7/7K b - - 0 1", "7k/8/8/3B4/8/5B2/6r1/K7 w - - 0 1",
 }
 
 func genGame(o *Out, r *rand.Rand, thorough bool) {
